@@ -90,7 +90,11 @@ def _worker(job):
 
 
 def _child(job, path):
-    out = _worker(job)
+    try:
+        out = _worker(job)
+    finally:
+        from pyvc.source import cleanup_generated
+        cleanup_generated()
     with open(path, "w") as f:
         json.dump(out, f, default=str)
 
@@ -257,7 +261,7 @@ def main(argv=None):
                 # every failing path went through a loop cut without invariant (over-approximation): not a verdict
                 undecided.append(f"{full}: fails only on over-approximated paths (loop without invariant, uninterpreted library model) and no replay confirms it")
                 continue
-            if confirmed is None and any(rp.get("representation_only") for rp in o["replays"]):
+            if confirmed is None and any(rp.get("representation_only") or rp.get("semantic_ok") for rp in o["replays"]):
                 undecided.append(f"{full}: the returned representation differs from the specified one, but on the counterexample it denotes an equal object "
                                  "(no input found on which the property itself fails; the contract pins the representation and needs adapting)")
                 continue
